@@ -18,6 +18,7 @@ func TestSim(t *testing.T) {
 		sims[p] = func(r *sim.Run) { zzRunSeq(r, p) }
 	}
 	sims["C12"] = zzRunC12
+	sims["C14"] = zzRunC14
 	sim.Main(sims)
 }
 
